@@ -627,7 +627,7 @@ void gen_generic(int fi) {
     size_t sl[40]; int nsl = 0;
     if (has_l) { for (int i = 0; i <= N + 2; i++) nsl = uniq_add(sl, nsl, i); } else sl[nsl++] = 0;
     long cv[8]; int ncv = 0;
-    if (has_c) { cv[ncv++] = 'a'; cv[ncv++] = 'c'; cv[ncv++] = 0; cv[ncv++] = 'Z'; if (g_tier) { cv[ncv++] = 0x80; cv[ncv++] = 0x1ff; } } else cv[ncv++] = 0;
+    if (has_c) { cv[ncv++] = 'a'; cv[ncv++] = 'c'; cv[ncv++] = 0; cv[ncv++] = 0x1ff; if (g_tier) { cv[ncv++] = 0x80; cv[ncv++] = 'Z'; } } else cv[ncv++] = 0;
 
     /* ---- part 1: all entry constraints satisfied: the full size lattice */
     for (int place = 0; place < 2; place++)
@@ -664,12 +664,13 @@ void gen_generic(int fi) {
             for (long L = 0; L <= maxL; L++)
             for (int term = 1; term >= 0; term--) {
                 if (!src_str && term == 0) continue;          /* counted arrays have no terminator notion */
-                if (src_str && !term && !has_l) continue;     /* unterminated source needs a declared length */
+                if (src_str && !term && !has_l && !has_bs) continue;   /* an unterminated source needs a declared length or a known object size */
                 for (int isl = 0; isl < nsl; isl++)
                 for (int sbos = 0; sbos <= (has_bs ? 1 : 0); sbos++) {
                     size_t slen = sl[isl];
                     c.s_len = L; c.s_term = term; c.slen = slen; c.s_bos = sbos; c.s_k = 0;
-                    if (src_str) {
+                    if (src_str && !term && !has_l) { if (!sbos || L == 0) continue; c.s_obj = L; }   /* known-size unterminated source */
+                    else if (src_str) {
                         if (term) c.s_obj = has_l ? (long)((size_t)(L + 1) < slen ? (size_t)(L + 1) : slen) : L + 1;
                         else { if ((size_t)L != slen) continue; c.s_obj = L ? L : 1; }   /* unterminated: exactly fills slen */
                         if (has_l && term && slen == 0) c.s_obj = 1;   /* zero-length request: first element readable (DESIGN 4) */
